@@ -1,5 +1,7 @@
 import OSProofs.Props.C10
 import OSProofs.Props.C10Teams
+import OSProofs.Props.FL2
+import OSProofs.MonoArithInst
 #print axioms OS.C10_term_eq_band
 #print axioms OS.C10_terms_eq_pairBand
 #print axioms OS.C10_pairBand_eq
@@ -25,3 +27,14 @@ import OSProofs.Props.C10Teams
 #print axioms OS.C10_predictDraw_many_teams
 #print axioms OS.C10_predictDraw_mem
 #print axioms OS.C10_predictDraw_equalise
+#print axioms OS.MonoArith.real
+#print axioms OS.MonoArith.rn
+#print axioms OS.truncRounding
+#print axioms OS.truncRounding_lossy
+#print axioms OS.truncRounding_ne_id
+#print axioms OS.MonoArith.fl1_gammaNonneg_of_tag
+#print axioms OS.FL_C10_nonneg
+#print axioms OS.FL_C10_le_one_many
+#print axioms OS.FL_C10_range_many
+#print axioms OS.FL_C10_le_one_many'
+#print axioms OS.FL_C10_range_many'
